@@ -279,6 +279,23 @@ impl Pgcat {
             .stdout(Stdio::from(outf))
             .stderr(Stdio::from(errf));
         for (k, v) in env {
+            if *k == "PGVERIF_RLIMIT_AS_MB" {
+                // address-space limit for the pooler process (stands in for a container memory limit)
+                let bytes: u64 = v.parse::<u64>().unwrap_or(0) * 1024 * 1024;
+                if bytes > 0 {
+                    use std::os::unix::process::CommandExt;
+                    unsafe {
+                        cmd.pre_exec(move || {
+                            let lim = libc::rlimit { rlim_cur: bytes, rlim_max: bytes };
+                            if libc::setrlimit(libc::RLIMIT_AS, &lim) != 0 {
+                                return Err(std::io::Error::last_os_error());
+                            }
+                            Ok(())
+                        });
+                    }
+                }
+                continue;
+            }
             cmd.env(k, v);
         }
         let child = cmd.spawn().map_err(|e| format!("spawn pgcat: {}", e))?;
